@@ -141,7 +141,12 @@ theorem foldl_step_asWrite (pts : List Point) : ∀ (s : TM), (∀ q ∈ pts, q.
 theorem run_append (drp : String) (xs ys : List Op) : run drp (xs ++ ys) = ys.foldl step (run drp xs) := by
   simp [run, List.foldl_append]
 
-theorem batchPoint_doc (L : Loop) (bname : String) (r : RawPoint) : L.batchPoint bname r = docBatchWrite L bname r := rfl
+theorem batchPoint_doc (L : Loop) (bname : String) (r : RawPoint) : L.batchPoint bname r = docBatchWrite L bname r := by
+  unfold Loop.batchPoint docBatchWrite
+  by_cases hn : L.name = ""
+  · simp [hn]
+  · have : (L.name != "") = true := by simpa using hn
+    simp [hn, this]
 
 /-! ### the simulation of the second layer -/
 
@@ -220,6 +225,8 @@ theorem Agree.step {drp : String} {s : LTM} {f : FSt} (ha : Agree drp s f) (op :
         obtain ⟨r, _, rfl⟩ := List.mem_map.mp hq
         exact hv
       rw [← foldl_step_asWrite _ _ hrp]
+      have hdoc : L.batchPoint bname = docBatchWrite L bname := funext (batchPoint_doc L bname)
+      rw [hdoc]
       rfl
 
 theorem agree_fold (drp : String) (h : List LOp) : ∀ (s : LTM) (f : FSt), Agree drp s f →
